@@ -60,8 +60,11 @@ def _history(draw):
     ops = []
     for _ in range(n):
         kind = draw(st.sampled_from(["integrate", "integrate", "integrate_to", "integrate_to", "set_dt", "set_rtol", "set_atol", "set_method", "set_tf",
-                                     "set_kick", "integrate_events", "integrate_fault", "reset", "reset", "noop"]))
-        if kind == "integrate_to":
+                                     "set_kick", "integrate_events", "integrate_fault", "reset", "reset", "noop", "set_t0"]))
+        if kind == "set_t0":
+            # system.t0 = <new start time> ("changes the initial time for the integration"): in force from the next reset() on
+            ops.append([kind, draw(st.sampled_from([-0.5, 0.25, -1.0]))])
+        elif kind == "integrate_to":
             ops.append([kind, draw(st.sampled_from([0.25, 0.5, 0.75, 1.0, 1.25, -0.25, 0.1]))])
         elif kind == "set_dt":
             ops.append([kind, draw(st.sampled_from([0.05, 0.1, 0.2, 0.025]))])
@@ -155,7 +158,7 @@ class Sys(object):
         self.constants_arg = dict(case["constants"])
         self.constants_copy = copy.deepcopy(self.constants_arg)
         s = settings or {}
-        self.a = de.OdeSystem(rhs, y0=self.y0_arg, t=(case["t0"], s.get("tf", case["tf"])), dense_output=case["dense"], dt=case["dt"],
+        self.a = de.OdeSystem(rhs, y0=self.y0_arg, t=(s.get("t0", case["t0"]), s.get("tf", case["tf"])), dense_output=case["dense"], dt=case["dt"],
                               rtol=s.get("rtol", case["rtol"]), atol=s.get("atol", case["atol"]), constants=self.constants_arg)
         self.a.method = M.get(s.get("method", case["method"]))
         if "kick" in s:
@@ -216,6 +219,8 @@ def _apply(S, op, case, settings):
             a.method = M.get(op[1])
         elif kind == "set_tf":
             a.tf = t0 + op[1] * (tf0 - t0)
+        elif kind == "set_t0":
+            a.t0 = t0 + op[1] * (tf0 - t0)
         elif kind == "set_kick":
             a.set_kick_vars(_mask(op[1], S.f.shape))
         elif kind == "integrate_events":
@@ -245,7 +250,7 @@ def _apply(S, op, case, settings):
             raise c
         return "failed:" + type(c).__name__
     except ValueError as e:
-        if kind == "set_tf":
+        if kind in ("set_tf", "set_t0"):
             return "rejected"
         raise
 
@@ -287,6 +292,8 @@ def _check_history(case):
                 settings["method"] = op[1]
             elif kind == "set_tf":
                 settings["tf"] = case["t0"] + op[1] * (case["tf"] - case["t0"])
+            elif kind == "set_t0":
+                settings["t0"] = case["t0"] + op[1] * (case["tf"] - case["t0"])
             elif kind == "set_kick":
                 settings["kick"] = op[1]
         sa = A.snapshot()
@@ -295,8 +302,8 @@ def _check_history(case):
             f = A.f
             y0 = np.asarray(case["y0"], dtype=np.float64).reshape(f.shape)
             bad = []
-            if len(sa["t"]) != 1 or sa["t"][0] != case["t0"] or not np.array_equal(sa["y"][0], y0):
-                bad.append("trajectory is not [(t0, y0)]: {} samples, t[0]={!r}".format(len(sa["t"]), float(sa["t"][0])))
+            if len(sa["t"]) != 1 or sa["t"][0] != settings.get("t0", case["t0"]) or not np.array_equal(sa["y"][0], y0):
+                bad.append("trajectory is not [(t0, y0)]: {} samples, t[0]={!r}, t0 = {!r}".format(len(sa["t"]), float(sa["t"][0]), settings.get("t0", case["t0"])))
             if sa["ev"]:
                 bad.append("{} events kept".format(len(sa["ev"])))
             if sa["npieces"] not in (None, 0):
